@@ -41,7 +41,7 @@ fn serialize<Output: BinaryOutput>(&self, context: &mut SerializationContext<Out
 
 DE_TMPL = """impl %(X)s {
 %(case_fns)s
-//#fn id=catalogue::%(X)s::deserialize tags=C02,C13,C14,C05 mode=body
+//#fn id=catalogue::%(X)s::deserialize tags=C02,C13,C14,C05,C06,C07 mode=body
 #[verifier::rlimit(300)]
 pub fn deserialize(context: &mut DeserializationContext<'_>) -> (r: Result<Self>)
     requires
